@@ -8,7 +8,7 @@ EXTENDS LitTables, Sequences, TLC, Json
 CONSTANTS MaxDepth, LitIdx      \* LitIdx: the literal indices used as leaves
 
 LTok(i) == "L" \o ToString(i)
-QuickLits == {LTok(i) : i \in {1, 2, 3, 5, 9, 11, 14, 16, 19, 20, 21, 23, 28}}
+QuickLits == {LTok(i) : i \in {1, 2, 3, 5, 9, 11, 14, 16, 19, 20, 21, 23, 28, 29}}
 AllLits == {LTok(i) : i \in DOMAIN Lits}
 IsLit(p) == p \in AllLits
 LitOf(p) == Lits[CHOOSE i \in DOMAIN Lits : LTok(i) = p]
